@@ -419,20 +419,14 @@ class OpenSystem:
                     # we assume that we have only electronic sbi
                     # FIXME: make sure that Molecule also has Nel
                     if sbi.system.Nel == sbi.KK.shape[1]:
-                        # upgrade sbi to vibrational levels
-
-                        eKK = sbi.KK
-                        vKK = numpy.zeros((eKK.shape[0], ham.dim, ham.dim),
-                                          dtype=REAL)
-
-                        # use eKK to calculate vKK
-
-                        sbi.KK = vKK
+                        # the electronic operators are upgraded to 
+                        # vibrational levels by the ElectronicLindbladForm; 
+                        # the sbi object passed in is left as it is
+                        from ..qm import ElectronicLindbladForm
+                        relaxT = ElectronicLindbladForm(ham, sbi)
                     else:
                         raise Exception("SystemBathInteraction object has to"+
                                         " purely electronic")
-
-                    relaxT = LindbladForm(ham, sbi)
 
                 if secular_relaxation:
                     relaxT.convert_2_tensor()
